@@ -26,6 +26,9 @@ pub trait StoreOps: Send + Sync {
     /// One storage operation through a handle. Returns (cls, res-fields).
     fn sop(&self, world: &World, path: &str, e: Entity, c: (u32, u32), wval: i64) -> Value;
     fn sweep(&self, world: &World, hs: &[Entity]) -> Value;
+    /// insert at an index the membership mask cannot represent (>= 2^24): the mask
+    /// update panics after the raw insert; returns whether it panicked
+    fn oob_insert(&self, world: &World, c: (u32, u32)) -> bool;
     fn tracked(&self) -> &'static str;
     /// whole-storage operation; `base` is the first of 64 fresh values that may be written
     fn wop(&self, world: &World, op: &Value, base: i64) -> Option<Value>;
@@ -91,6 +94,19 @@ where
 
     fn tracked(&self) -> &'static str {
         T::tracked()
+    }
+
+    fn oob_insert(&self, world: &World, c: (u32, u32)) -> bool {
+        let e = world.entities().entity(1 << 24);
+        let v = T::new(c.0, c.1);
+        let r = crate::util::catch(|| {
+            let mut st = world.write_storage::<T>();
+            let r = st.insert(e, v);
+            if let Ok(Some(old)) = r {
+                give_back(old);
+            }
+        });
+        r.is_err()
     }
 
     fn wop(&self, world: &World, op: &Value, base: i64) -> Option<Value> {
